@@ -23,7 +23,9 @@ class Env:
         else:
             # region 0: whole address space, full access; region 1: the data window, privileged only
             regs.sctlr.m = 1
-            regs.mpuir.dregion = 2
+            # MPUIR.DREGION = the number of regions the configuration implements (regions 2.. stay disabled): the
+            # region scan runs over its full architectural range
+            regs.mpuir.dregion = len(regs.drsrs)
             regs.drsrs[0].value = (31 << 1) | 1
             regs.drbars[0] = 0
             regs.dracrs[0].ap = 0b011
